@@ -20,7 +20,7 @@ Probes == Codes(rs) \cup Short
 ProbeSeq == SetToSeq(Probes)
 
 \* layers with exactly k entries
-MapsOf(k) == UNION {{{[c |-> c, v |-> f[c]] : c \in S} : f \in [S -> Values(Fam)]} :
+MapsOf(k) == UNION {{{[c |-> c, v |-> f[c]] : c \in S} : f \in [S -> Values(Fam, sp)]} :
                       S \in {T \in SUBSET Codes(rs) : Cardinality(T) = k}}
 NotdefOpts == {<<>>} \cup (IF NotdefOn /\ IsCID(Fam) THEN {<<r>> : r \in NotdefChoices(sp)} ELSE {})
 LayersOf(k) == {[map |-> m, notdef |-> nd] : m \in MapsOf(k), nd \in NotdefOpts}
